@@ -57,7 +57,7 @@ def run(tier, replay=None):
     if replay:
         cases = [convcorr.Case(json.load(open(replay))["input"], "replay")]
     else:
-        cases = convcorr.programs(ck.rng, 250 if quick else 6000)
+        cases = convcorr.programs(ck.rng, 250 if quick else 2000)
     convcorr.run(cases)
     # verdict and output through the public pipeline as well
     tr = {a: run_sharded(MH, [f"t{i}\ttranspile\t{a}\t{hexs(c.src)}" for i, c in enumerate(cases)]) for a in "01"}
